@@ -28,6 +28,12 @@ CHECKS["C09"] = ("property-based testing (rapid): generated + corpus programs vs
 CHECKS["C08"] = ("property-based testing (rapid): valid-by-construction programs must be accepted by every stage and backend",
          "Programs from two typed generators (exec profile: compute over scalars/vectors/matrices/arrays/structs/pointers/control flow/builtins; full profile: 1-4 entry points of mixed stages, IO structs, textures/samplers, shared and aliased bindings, shadowing, forward references, overrides, atomics) and the corpus are run through Parse, Lower, Validate, the one-call Compile API and the SPIR-V/HLSL/MSL/GLSL backends under drawn option sets; any error or panic is a violation unless it maps to a listed finding. Exploration only.",
          "Trusted: validity by construction of the generators (own AST and typing); documented-feature scope taken from README/CHANGELOG/corpus.", "DESIGN.md §4 C08")
+CHECKS["C10"] = ("property-based testing (rapid) in an isolated worker process: hostile and amplified inputs, crash/hang/memory oracle",
+         "Arbitrary bytes, token soups, token-level mutations of corpus and generated programs and 30 amplifier families (nesting, chains, long tokens, unterminated constructs; sizes doubled up to 16/64 KiB) are run through tokenize/parse/lower/validate/compile and all five backends in a sandboxed worker; a recovered panic, a fatal runtime error, live heap above 1.5 GB, allocation growing faster than n^3.5 or a missing answer within 120 s is a violation. Exploration only; polynomial bounds are approximated by fixed limits.",
+         "Trusted: the worker attribution (one request in flight); time is only used for extreme cases because wall-clock varies with heap state.", "DESIGN.md §4 C10")
+CHECKS["C06"] = ("property-based testing (rapid): generated constant-expression trees x placement sites, three-way differential",
+         "Constant-expression trees over abstract/concrete literals and named constants are placed at eleven kinds of site; the value observed by executing the compiled program (independent SPIR-V interpreter, GLSL interpreter as second opinion) must equal the value of an independent WGSL const-evaluator, fully concrete trees must agree with their run-time twin (leaves loaded from a buffer), and expressions WGSL makes an error (integer division by zero, unrepresentable value) must be rejected. Exploration only.",
+         "Trusted: verif/internal/wref const-evaluation (abstract ints in 64 bits, floats in binary64, WGSL conversion rank); float results compared with tolerance; concrete overflow, over-wide shifts, cancellation-sensitive float sums are not judged.", "DESIGN.md §4 C06")
 PENDING = {}  # filled below
 
 def main():
